@@ -15,12 +15,15 @@ DictM == {"copy", "get", "items", "keys", "pop", "values", "update", "setdefault
 NumM == {"bit_length", "is_integer", "as_integer_ratio"}
 Matrix == [k : {"construct"}, s : Stmts, e : Exprs, c : Ctxs]
 Calls == [k : {"builtin"}, s : Funcs, e : {"literal", "variable", "nested", "used"}, c : {"module", "function"}]
+\* ... and the builtins that students call with KEYWORD arguments
+KwFuncs == {"round", "print", "sorted", "int", "max", "min", "open", "enumerate", "sum"}
+KwCalls == [k : {"builtin"}, s : KwFuncs, e : {"kw"}, c : {"module", "function"}]
 Methods == [k : {"method"}, s : StrM \cup ListM \cup DictM \cup NumM, e : {"literal", "variable"}, c : {"module", "function"}]
 Exotic == [k : {"exotic"}, s : {"match", "async", "walrus", "decorator", "global", "nonlocal", "starassign", "typealias", "classbody",
                                  "generator", "annassign", "delete", "assert", "raise", "trywithfinally", "chained", "nestedfunc",
                                  "lambdadefault", "setcomp", "starargs", "dunder", "slicesassign", "ellipsis", "bytes", "complexnum", "genericann", "ctorcalls"},
            e : {"-"}, c : {"module"}]
-AllCells == Matrix \cup Calls \cup Methods \cup Exotic
+AllCells == Matrix \cup Calls \cup KwCalls \cup Methods \cup Exotic
 \* cells whose analysis goes through the builtin constructor types (list(), dict(), ... and their subscripted forms)
 CtorCells == {c \in Calls : c.s \in {"list", "dict", "set", "tuple", "str", "int", "float", "bool"}}
              \cup {c \in Exotic : c.s \in {"genericann", "ctorcalls", "annassign"}}
